@@ -241,3 +241,9 @@ package cl
 //@   ensures values: forall k :: (0 <= k && k < $n) ==> ($eslot[k] == 2 * k + 1 && $escope[k] == s)
 //@   ensures all: 2 * $n == len(args)
 //@   loop i<last: invariant pairs: i == 2 * $n && i <= len(args) && (forall k :: (0 <= k && k < $n) ==> ($eslot[k] == 2 * k + 1 && $escope[k] == s))
+
+// C02: after reading one form from a seekable stream the stream is positioned
+// at the end of that form: where the read began plus the length consumed.
+//@ func cl.(*Read).wrapRead
+//@   property C02
+//@   on-call Seek#2 position: (0 <= start && start < 4611686018427387904 && 0 <= pos && pos < 4611686018427387904) ==> ($arg0 == start + pos && $arg1 == 0)
